@@ -88,6 +88,12 @@ CombProps(e) ==
               /\ (okv => e.joined.some /\ e.joined.x = JoinCombined(exp.v))
               /\ ((okv /\ CombinedInvertible(exp.v)) => (e.inverse.ns = exp.v.ns /\ e.inverse.name = exp.v.name)),
       C04 |-> (okv => Valid(e.out.v))]
+\* combined_name() of a parsed typed PURL and the constructor applied to it (inverse law of C18)
+CombInvProps(e) ==
+  IF "panic" \in DOMAIN e THEN [C06 |-> FALSE] ELSE
+  [C18 |-> /\ e.joined = JoinCombined(e.v)
+           /\ (CombinedInvertible(e.v) => (e.inverse.ns = e.v.ns /\ e.inverse.name = e.v.name))
+           /\ e.inverse = SplitCombined(e.v.type, e.joined)]
 \* two values handed out by the parser, their strings and the comparison results
 PairProps(e) ==
   [C19 |-> /\ (e.eq <=> (e.a = e.b)) /\ (e.eq <=> (e.sa = e.sb))
@@ -103,6 +109,7 @@ Props(e) == CASE e.ev = "value" -> ValueProps(e)
               [] e.ev = "tlookup" -> LookupProps(e)
               [] e.ev = "comb" -> CombProps(e)
               [] e.ev = "pair" -> PairProps(e)
+              [] e.ev = "combinv" -> CombInvProps(e)
               [] OTHER -> [TOOL |-> FALSE]
 FailedProps(e) == LET p == Props(e) IN {k \in DOMAIN p : ~p[k]}
 EventOk(e) == FailedProps(e) = {}
